@@ -176,6 +176,1088 @@ def _removed_key(fn: ast.FunctionDef) -> str:
     return f"Definition removed_key_gen (tok : pystr) : pystr := {expr}.\n"
 
 
+
+# =============================================================================================================
+# Statement-by-statement translation of manifest_ops.py and of the predicates of manifest_utils.py
+# =============================================================================================================
+# Target vocabulary: coq/model/ManifestPy.v (heap of entry objects, insertion-ordered dicts, computations M A).
+# Every Python function  f(p1: T1, ...) -> R  becomes   Definition g_f (v_p1 : T1') ... : M R'.
+#   * a function that mutates a dict parameter in place (del m[k], m[k] = v, or passing it to such a function) returns the
+#     final value of that parameter (after its Python result, if any); call sites rebind the argument variable;
+#   * entry objects are addresses; reading an attribute, isinstance, hasattr read the heap; entry.keys.remove / .append
+#     write it; constructors allocate; copy.deepcopy allocates copies of every reachable entry;
+#   * is_sharded_tensor_elasticity_enabled_at_root_only() (an environment read) is the extra first parameter
+#     `knob_root_only : bool` of every function that reaches it;
+#   * Python locals are prefixed v_, temporaries are t<n>.
+# Statement forms: x = e; x: T = e; d[k] = v; l[i][k] = v; del d[k]; if/else; for ... in (list | d.items() | list(d.keys()) |
+# enumerate(l) | entry.keys); continue; break (loop level only); return; expression statements that are calls of
+# translated functions / d.update(e) / dd[k].append(v) / dd[k].update(s) / entry.keys.append(k) / entry.keys.remove(k).
+# Anything else raises TranslateError.
+
+from .gen_dispatch import ECLASS  # noqa: E402  (class name -> eclass constructor, shared with T-dispatch)
+
+ATTRS = {"keys": ("AKeys", "pe_keys"), "replicated": ("AReplicated", "pe_repl"), "shards": ("AShards", "pe_shards"),
+         "dim_map": ("ADimMap", "pe_dim_map"), "mesh": ("AMesh", "pe_mesh")}
+MUTATORS = {"append", "update", "pop", "extend", "remove", "insert", "clear", "add", "discard", "setdefault", "popitem", "sort",
+            "reverse"}
+
+# the two pieces that stay hand-modelled (ManifestPy.np_replicated_ranks, ManifestPy.rs_lookup): their source is pinned
+PINNED_GET_REPLICATED_RANKS = """def _get_replicated_ranks(entry: DTensorEntry) -> List[Set[int]]:
+    mesh = entry.mesh
+    mesh_shape = np.array(entry.mesh).shape
+    dim_map = entry.dim_map
+    shard_dims = []
+    for dims in dim_map:
+        if dims[0] != -1:
+            shard_dims.extend(dims)
+    replicate_dims = set(range(len(mesh_shape))) - set(shard_dims)
+    slices_for_dims = []
+    mesh_shape = np.array(mesh).shape
+    for dim, size in enumerate(mesh_shape):
+        if dim in replicate_dims:
+            slices_for_dims.append([slice(None)])
+        elif dim in shard_dims:
+            slices_for_dims.append([slice(i, i + 1) for i in range(size)])
+    slice_combinations = list(itertools.product(*slices_for_dims))
+    return [set(np.array(mesh)[s].flatten()) for s in slice_combinations]"""
+PINNED_REPLICATED_SHARDS = """class _ReplicatedShards:
+
+    def __init__(self, replicated_ranks_for_shards: List[Set[int]]) -> None:
+        self.repranks = replicated_ranks_for_shards
+        self.lookup: Dict[int, Set[int]] = {}
+        for rankset in self.repranks:
+            for rank in rankset:
+                self.lookup[rank] = rankset
+
+    def get_all_replicated_ranks(self, rank: int) -> Set[int]:
+        return self.lookup.get(rank, set())
+
+    def __iter__(self) -> Iterator[Set[int]]:
+        return iter(self.repranks)"""
+
+
+class Ty:
+    """a (possibly not yet known: None) type of a Python value"""
+
+    def __init__(self, kind, *args):
+        self.kind, self.a = kind, list(args)
+
+    def __repr__(self):
+        return self.kind + ("[" + ",".join(map(repr, self.a)) + "]" if self.a else "")
+
+    def coq(self):
+        k = self.kind
+        base = {"int": "Z", "bool": "bool", "str": "pystr", "entry": "addr", "key": "key", "shard": "shard", "meta": "pmeta",
+                "mesh": "mesh", "unit": "unit"}
+        if k in base:
+            return base[k]
+        sub = [(x.coq() if x is not None else "_") for x in self.a]
+        if k == "list":
+            return f"list ({sub[0]})"
+        if k == "dict":
+            return f"pdict ({sub[0]})"
+        if k == "ddict":
+            return f"pdict (list ({sub[0]}))"
+        if k == "tuple":
+            return "(" + " * ".join(sub) + ")"
+        raise TranslateError("types", f"no Coq type for {self!r}")
+
+
+def T(kind, *a):
+    return Ty(kind, *a)
+
+
+def same(a, b):
+    if a is None or b is None:
+        return True
+    return a.kind == b.kind and len(a.a) == len(b.a) and all(same(x, y) for x, y in zip(a.a, b.a))
+
+
+def unify(a, b, where):
+    """fill the unknown parts of a from b (and of b from a); error on a clash"""
+    if a is None:
+        return b
+    if b is None:
+        return a
+    if a.kind != b.kind or len(a.a) != len(b.a):
+        raise TranslateError(where, f"type clash {a!r} / {b!r}")
+    for i in range(len(a.a)):
+        u = unify(a.a[i], b.a[i], where)
+        a.a[i] = u
+        b.a[i] = u
+    return a
+
+
+class E:
+    """a translated expression: monadic bindings to run first (in order), a pure Gallina text, a type"""
+
+    def __init__(self, text, ty, binds=None, fresh=False):
+        self.text, self.ty, self.binds, self.fresh = text, ty, list(binds or []), fresh
+
+
+class FnSig:
+    def __init__(self, name, gname, params, ret):
+        self.name, self.gname, self.params, self.ret = name, gname, params, ret
+        self.mutated: list[str] = []
+        self.knob = False
+
+    def result_ty(self):
+        parts = ([] if self.ret.kind == "unit" else [self.ret]) + [dict(self.params)[m] for m in self.mutated]
+        if not parts:
+            return T("unit")
+        return parts[0] if len(parts) == 1 else T("tuple", *parts)
+
+
+class Ctx:
+    def __init__(self, fall, live, ret=None, cont=None, brk=None):
+        self.fall, self.live, self.ret, self.cont, self.brk = fall, set(live), ret, cont, brk
+
+
+def lit(s: str) -> str:
+    return "[" + "; ".join(str(ord(c)) for c in s) + "]"
+
+
+def tup(names):
+    names = list(names)
+    if not names:
+        return "tt", "_"
+    if len(names) == 1:
+        return names[0], names[0]
+    inner = ", ".join(names)
+    return f"({inner})", f"'({inner})"
+
+
+def wrap(binds, inner):
+    for pat, m in reversed(binds):
+        inner = f"bind ({m}) (fun {pat} =>\n{inner})"
+    return inner
+
+
+class Tr:
+    """translator of one module's functions (shares the table of already translated functions)"""
+
+    def __init__(self, fns, imports_ok):
+        self.fns: dict[str, FnSig] = fns
+        self.ok = imports_ok          # names with a fixed meaning that were checked against the module's imports
+        self.n = 0
+        self.env: dict[str, Ty] = {}
+        self.where = ""
+        self.uses_knob = False
+
+    # ------------------------------------------------------------------ helpers
+    def err(self, msg):
+        raise TranslateError(self.where, msg)
+
+    def tmp(self):
+        self.n += 1
+        return f"t{self.n}"
+
+    def ann(self, a) -> Ty:
+        s = ast.unparse(a) if a is not None else "None"
+        table = {"int": T("int"), "str": T("str"), "bool": T("bool"), "None": T("unit"), "Entry": T("entry"),
+                 "DTensorEntry": T("entry"), "Manifest": T("dict", T("entry")), "Dict[str, Entry]": T("dict", T("entry")),
+                 "List[Dict[str, Entry]]": T("list", T("dict", T("entry"))), "List[str]": T("list", T("str")),
+                 "SnapshotMetadata": T("meta"), "Tuple[Manifest, Dict[str, Entry]]": T("tuple", T("dict", T("entry")), T("dict", T("entry"))),
+                 "List[Set[int]]": T("list", T("list", T("int"))),
+                 "Dict[str, _ReplicatedShards]": T("dict", T("list", T("list", T("int"))))}
+        if s not in table:
+            self.err(f"unsupported annotation {s}")
+        t = table[s]
+        return Ty(t.kind, *[Ty(x.kind, *x.a) if x is not None else None for x in t.a]) if t.a else Ty(t.kind)
+
+    @staticmethod
+    def base_name(n, through_attr=False):
+        """the local variable a store / mutator call goes to: x, x[k], x[i][k]; None when it goes through an attribute
+        (an entry object: a heap effect, not a variable)"""
+        while isinstance(n, ast.Subscript):
+            n = n.value
+        if isinstance(n, ast.Name):
+            return n.id
+        return None
+
+    def assigned(self, stmts, inplace_only=False):
+        out = set()
+        for st in stmts:
+            for n in ast.walk(st):
+                if isinstance(n, (ast.Assign, ast.AnnAssign, ast.AugAssign)):
+                    targets = n.targets if isinstance(n, ast.Assign) else [n.target]
+                    for t in targets:
+                        for leaf in (t.elts if isinstance(t, ast.Tuple) else [t]):
+                            if isinstance(leaf, ast.Name):
+                                if not inplace_only:
+                                    out.add(leaf.id)
+                            elif isinstance(leaf, ast.Subscript):
+                                b = self.base_name(leaf)
+                                if b:
+                                    out.add(b)
+                elif isinstance(n, ast.For) and not inplace_only:
+                    for leaf in (n.target.elts if isinstance(n.target, ast.Tuple) else [n.target]):
+                        if isinstance(leaf, ast.Name):
+                            out.add(leaf.id)
+                elif isinstance(n, ast.Delete):
+                    for t in n.targets:
+                        b = self.base_name(t)
+                        if b:
+                            out.add(b)
+                elif isinstance(n, ast.Call):
+                    if isinstance(n.func, ast.Attribute) and n.func.attr in MUTATORS:
+                        b = self.base_name(n.func.value)
+                        if b:
+                            out.add(b)
+                    if isinstance(n.func, ast.Name) and n.func.id in self.fns and self.fns[n.func.id].mutated:
+                        sig = self.fns[n.func.id]
+                        for pname, arg in self.call_args(n, sig).items():
+                            if pname in sig.mutated and isinstance(arg, ast.Name):
+                                out.add(arg.id)
+        return out
+
+    @staticmethod
+    def used(stmts):
+        return {n.id for st in stmts for n in ast.walk(st) if isinstance(n, ast.Name)}
+
+    @staticmethod
+    def has_exit(stmts):
+        """a return anywhere, or a continue / break that belongs to the enclosing loop"""
+        def walk(n, in_loop):
+            if isinstance(n, ast.Return):
+                return True
+            if isinstance(n, (ast.Continue, ast.Break)) and not in_loop:
+                return True
+            if isinstance(n, (ast.For, ast.While)):
+                return any(walk(c, True) for c in n.body + n.orelse)
+            return any(walk(c, in_loop) for c in ast.iter_child_nodes(n))
+        return any(walk(s, False) for s in stmts)
+
+    def call_args(self, call, sig):
+        names = [p for p, _ in sig.params]
+        if len(call.args) > len(names):
+            self.err(f"too many arguments in {ast.unparse(call)}")
+        out = dict(zip(names, call.args))
+        for kw in call.keywords:
+            if kw.arg is None or kw.arg not in names or kw.arg in out:
+                self.err(f"unexpected keyword in {ast.unparse(call)}")
+            out[kw.arg] = kw.value
+        if set(out) != set(names):
+            self.err(f"missing arguments in {ast.unparse(call)}")
+        return out
+
+    def classes(self, n):
+        elts = n.elts if isinstance(n, ast.Tuple) else [n]
+        out = []
+        for c in elts:
+            if not (isinstance(c, ast.Name) and c.id in ECLASS and c.id in self.ok):
+                self.err(f"isinstance against an unknown class {ast.unparse(c)}")
+            out.append("Dispatch." + ECLASS[c.id])
+        return "[" + "; ".join(out) + "]"
+
+    def as_key(self, e: E) -> str:
+        if e.ty.kind == "key":
+            return e.text
+        if e.ty.kind == "str":
+            return f"(KStr {e.text})"
+        if e.ty.kind == "int":
+            return f"(KInt {e.text})"
+        self.err(f"a value of type {e.ty!r} used as a dict key of an entry")
+
+    def pure(self, node) -> E:
+        e = self.ex(node)
+        if e.binds:
+            self.err(f"an expression that reads the heap / may raise inside a comprehension or lambda: {ast.unparse(node)}")
+        return e
+
+    def mon(self, node) -> tuple[str, Ty]:
+        """the expression as a computation"""
+        e = self.ex(node)
+        if e.binds and e.binds[-1][0] == e.text:
+            return wrap(e.binds[:-1], e.binds[-1][1]), e.ty
+        return wrap(e.binds, f"ret {e.text}"), e.ty
+
+    # ------------------------------------------------------------------ expressions
+    def ex(self, n) -> E:
+        if isinstance(n, ast.Name):
+            if n.id not in self.env:
+                self.err(f"unknown name {n.id}")
+            return E("v_" + n.id, self.env[n.id])
+        if isinstance(n, ast.Constant):
+            if isinstance(n.value, bool):
+                return E("true" if n.value else "false", T("bool"))
+            if isinstance(n.value, int):
+                return E(f"({n.value})" if n.value < 0 else str(n.value), T("int"))
+            if isinstance(n.value, str):
+                return E(lit(n.value), T("str"))
+            self.err(f"unsupported constant {n.value!r}")
+        if isinstance(n, ast.UnaryOp) and isinstance(n.op, ast.USub) and isinstance(n.operand, ast.Constant) \
+                and isinstance(n.operand.value, int):
+            return E(f"(-{n.operand.value})", T("int"))
+        if isinstance(n, ast.UnaryOp) and isinstance(n.op, ast.Not):
+            e = self.ex(n.operand)
+            if e.ty.kind != "bool":
+                self.err(f"`not` of a non-boolean {ast.unparse(n.operand)}")
+            return E(f"(negb {e.text})", T("bool"), e.binds)
+        if isinstance(n, ast.BoolOp):
+            return self.boolop(n)
+        if isinstance(n, ast.Compare):
+            return self.compare(n)
+        if isinstance(n, ast.Tuple):
+            es = [self.ex(x) for x in n.elts]
+            return E("(" + ", ".join(e.text for e in es) + ")", T("tuple", *[e.ty for e in es]), [b for e in es for b in e.binds])
+        if isinstance(n, ast.Dict) and not n.keys:
+            return E("[]", T("dict", None), fresh=True)
+        if isinstance(n, ast.Attribute):
+            return self.attribute(n)
+        if isinstance(n, ast.Subscript):
+            return self.subscript(n)
+        if isinstance(n, ast.Call):
+            return self.call(n)
+        if isinstance(n, ast.ListComp):
+            if len(n.generators) == 2:
+                return self.shard_source(n)
+            return self.comp(n.elt, n.generators)
+        self.err(f"unsupported expression {ast.unparse(n)}")
+
+    def boolop(self, n) -> E:
+        es = [self.ex(v) for v in n.values]
+        for e, v in zip(es, n.values):
+            if e.ty.kind != "bool":
+                self.err(f"non-boolean operand {ast.unparse(v)}")
+        is_or = isinstance(n.op, ast.Or)
+        if all(not e.binds for e in es[1:]):
+            return E("(" + (" || " if is_or else " && ").join(e.text for e in es) + ")", T("bool"), es[0].binds)
+        # short circuit: the later operands are evaluated only when needed
+
+        def chain(i):
+            e = es[i]
+            if i == len(es) - 1:
+                return wrap(e.binds, f"ret {e.text}") if not (e.binds and e.binds[-1][0] == e.text) \
+                    else wrap(e.binds[:-1], e.binds[-1][1])
+            rest = chain(i + 1)
+            body = f"if {e.text} then ret true else {rest}" if is_or else f"if {e.text} then {rest} else ret false"
+            return wrap(e.binds, body)
+        t = self.tmp()
+        return E(t, T("bool"), [(t, chain(0))])
+
+    def compare(self, n) -> E:
+        nodes = [n.left] + n.comparators
+        operands = [self.ex(x) for x in nodes]
+        text = ast.unparse(n)
+        if len(n.ops) == 1 or not any(e.binds for e in operands[2:]):
+            binds = [b for e in operands for b in e.binds]
+            parts = [self.cmp1(op, a, b, text) for op, a, b in zip(n.ops, operands, operands[1:])]
+            return E(parts[0] if len(parts) == 1 else "(" + " && ".join(parts) + ")", T("bool"), binds)
+        # a < b < c: c is evaluated only when a < b holds
+
+        def chain(i):
+            c = self.cmp1(n.ops[i], operands[i], operands[i + 1], text)
+            if i == len(n.ops) - 1:
+                return f"ret {c}"
+            return f"if {c} then {wrap(operands[i + 2].binds, chain(i + 1))} else ret false"
+        t = self.tmp()
+        return E(t, T("bool"), operands[0].binds + operands[1].binds + [(t, chain(0))])
+
+    def cmp1(self, op, a: E, b: E, text) -> str:
+        ka, kb = a.ty.kind, b.ty.kind
+        if isinstance(op, (ast.In, ast.NotIn)):
+            if ka == "str" and kb in ("dict", "ddict"):
+                r = f"(dhas {b.text} {a.text})"
+            elif ka == "str" and kb == "list" and b.ty.a[0] is not None and b.ty.a[0].kind == "str":
+                r = f"(str_memb {a.text} {b.text})"
+            elif ka == "int" and kb == "list" and b.ty.a[0] is not None and b.ty.a[0].kind == "int":
+                r = f"(Zmemb {a.text} {b.text})"
+            elif ka in ("str", "int", "key") and kb == "list" and b.ty.a[0] is not None and b.ty.a[0].kind == "key":
+                r = f"(key_in {self.as_key(a)} {b.text})"
+            else:
+                self.err(f"unsupported membership test {text} ({a.ty!r} in {b.ty!r})")
+            return f"(negb {r})" if isinstance(op, ast.NotIn) else r
+        if ka == "int" and kb == "int":
+            table = {ast.Eq: "=?", ast.Lt: "<?", ast.LtE: "<=?", ast.Gt: ">?", ast.GtE: ">=?"}
+            if type(op) in table:
+                return f"({a.text} {table[type(op)]} {b.text})"
+            if isinstance(op, ast.NotEq):
+                return f"(negb ({a.text} =? {b.text}))"
+        if ka == "str" and kb == "str" and isinstance(op, (ast.Eq, ast.NotEq)):
+            r = f"(str_eqb {a.text} {b.text})"
+            return r if isinstance(op, ast.Eq) else f"(negb {r})"
+        self.err(f"unsupported comparison {text} ({a.ty!r} vs {b.ty!r})")
+
+    def attribute(self, n) -> E:
+        v = self.ex(n.value)
+        if v.ty.kind == "meta":
+            if n.attr == "world_size":
+                return E(f"(pm_world_size {v.text})", T("int"), v.binds)
+            if n.attr == "manifest":
+                return E(f"(pm_manifest {v.text})", T("dict", T("entry")), v.binds)
+        if v.ty.kind == "shard" and n.attr == "offsets":
+            return E(f"(fst {v.text})", T("list", T("int")), v.binds)
+        if v.ty.kind == "entry" and n.attr in ATTRS:
+            a, proj = ATTRS[n.attr]
+            ty = {"keys": T("list", T("key")), "replicated": T("bool"), "shards": T("list", T("shard")),
+                  "dim_map": T("list", T("list", T("int"))), "mesh": T("mesh")}[n.attr]
+            t = self.tmp()
+            return E(t, ty, v.binds + [(t, f"attr_of g_has_attr {a} {proj} {v.text}")])
+        self.err(f"unsupported attribute {ast.unparse(n)} on {v.ty!r}")
+
+    def subscript(self, n) -> E:
+        v = self.ex(n.value)
+        i = self.ex(n.slice)
+        binds = v.binds + i.binds
+        if v.ty.kind == "dict" and i.ty.kind == "str":
+            t = self.tmp()
+            return E(t, v.ty.a[0], binds + [(t, f"dget_m {v.text} {i.text}")])
+        if v.ty.kind == "ddict" and i.ty.kind == "str":
+            return E(f"(dd_get {v.text} {i.text})", T("list", v.ty.a[0]), binds)
+        if v.ty.kind == "list" and i.ty.kind == "int":
+            el = v.ty.a[0]
+            if el is not None and el.kind == "int" and i.text == "0":
+                return E(f"(zhd {v.text})", T("int"), binds)            # dims[0]: see ManifestPy.v, NOT modelled
+            t = self.tmp()
+            return E(t, el, binds + [(t, f"list_get {v.text} {i.text}")])
+        self.err(f"unsupported subscript {ast.unparse(n)} ({v.ty!r}[{i.ty!r}])")
+
+    def comp_parts(self, generators):
+        if len(generators) != 1 or generators[0].is_async:
+            self.err("unsupported comprehension (one generator expected)")
+        g = generators[0]
+        ibinds, it, el = self.iter_expr(g.iter)          # the outermost iterable is evaluated first, once
+        if not isinstance(g.target, ast.Name):
+            self.err("unsupported comprehension target")
+        saved = dict(self.env)
+        self.env[g.target.id] = el
+        conds = [self.pure(c) for c in g.ifs]
+        return g, ibinds, it, el, conds, saved
+
+    def comp(self, elt, generators) -> E:
+        """[elt for x in it if c]"""
+        g, ibinds, it, el, conds, saved = self.comp_parts(generators)
+        v = "v_" + g.target.id
+        src_ = it
+        if conds:
+            src_ = f"(filter (fun {v} => {' && '.join(c.text for c in conds)}) {it})"
+        if isinstance(elt, ast.Name) and elt.id == g.target.id:
+            self.env = saved
+            return E(src_, T("list", el), ibinds, fresh=True)
+        e = self.pure(elt)
+        self.env = saved
+        return E(f"(map (fun {v} => {e.text}) {src_})", T("list", e.ty), ibinds, fresh=True)
+
+    def iter_expr(self, n, pure=False):
+        """what a for statement / comprehension iterates over: (binds, list text, element type); with pure=True the
+        list text alone (no bindings allowed)"""
+        binds = []
+        if isinstance(n, ast.Call) and isinstance(n.func, ast.Attribute) and n.func.attr == "items" and not n.args:
+            d = self.ex(n.func.value)
+            if d.ty.kind == "dict":
+                r = (d.text, T("tuple", T("str"), d.ty.a[0]))
+            elif d.ty.kind == "ddict":
+                r = (d.text, T("tuple", T("str"), T("list", d.ty.a[0])))
+            else:
+                self.err(f".items() of a non-dict {ast.unparse(n)}")
+            binds = d.binds
+        elif isinstance(n, ast.Call) and isinstance(n.func, ast.Name) and n.func.id == "list" and len(n.args) == 1 \
+                and isinstance(n.args[0], ast.Call) and isinstance(n.args[0].func, ast.Attribute) \
+                and n.args[0].func.attr == "keys" and not n.args[0].args:
+            d = self.ex(n.args[0].func.value)
+            if d.ty.kind not in ("dict", "ddict"):
+                self.err(f".keys() of a non-dict {ast.unparse(n)}")
+            r = (f"(dkeys {d.text})", T("str"))
+            binds = d.binds
+        elif isinstance(n, ast.Call) and isinstance(n.func, ast.Name) and n.func.id == "enumerate" and len(n.args) == 1:
+            l = self.ex(n.args[0])
+            if l.ty.kind != "list":
+                self.err(f"enumerate of a non-list {ast.unparse(n)}")
+            r = (f"(enumerate {l.text})", T("tuple", T("int"), l.ty.a[0]))
+            binds = l.binds
+        elif isinstance(n, ast.Call) and isinstance(n.func, ast.Name) and n.func.id == "range" and len(n.args) == 1:
+            a = self.ex(n.args[0])
+            if a.ty.kind != "int":
+                self.err(f"range of a non-int {ast.unparse(n)}")
+            r = (f"(py_range {a.text})", T("int"))
+            binds = a.binds
+        else:
+            e = self.ex(n)
+            binds = e.binds
+            if e.ty.kind == "list":
+                r = (e.text, e.ty.a[0])
+            elif e.ty.kind in ("dict", "ddict"):
+                r = (f"(dkeys {e.text})", T("str"))
+            else:
+                self.err(f"cannot iterate over {ast.unparse(n)} ({e.ty!r})")
+        if pure:
+            if binds:
+                self.err(f"an iterable that reads the heap / may raise inside a comprehension: {ast.unparse(n)}")
+            return r
+        return binds, r[0], r[1]
+
+    def call(self, n) -> E:
+        f = n.func
+        text = ast.unparse(n)
+        if isinstance(f, ast.Name):
+            name = f.id
+            if name in self.fns:
+                sig = self.fns[name]
+                if sig.mutated:
+                    self.err(f"{name} mutates its argument; it may only be called as a statement: {text}")
+                return self.call_fn(n, sig)[0]
+            if name == "len" and len(n.args) == 1 and not n.keywords:
+                a = self.ex(n.args[0])
+                if a.ty.kind not in ("list", "str", "dict", "ddict"):
+                    self.err(f"len of {a.ty!r}")
+                return E(f"(zlen {a.text})", T("int"), a.binds)
+            if name == "int" and len(n.args) == 1 and not n.keywords:
+                a = self.ex(n.args[0])
+                if a.ty.kind != "str":
+                    self.err(f"int() of {a.ty!r}")
+                t = self.tmp()
+                return E(t, T("int"), a.binds + [(t, f"py_int {a.text}")])
+            if name == "str" and len(n.args) == 1 and not n.keywords:
+                a = self.ex(n.args[0])
+                if a.ty.kind != "key":
+                    self.err(f"str() of {a.ty!r}")
+                return E(f"(key_str {a.text})", T("str"), a.binds)
+            if name == "unquote" and "unquote" in self.ok and len(n.args) == 1 and not n.keywords:
+                a = self.ex(n.args[0])
+                if a.ty.kind != "str":
+                    self.err(f"unquote of {a.ty!r}")
+                return E(f"(decode {a.text})", T("str"), a.binds)
+            if name == "isinstance" and len(n.args) == 2 and not n.keywords:
+                a = self.ex(n.args[0])
+                if a.ty.kind != "entry":
+                    self.err(f"isinstance of {a.ty!r}")
+                t = self.tmp()
+                return E(t, T("bool"), a.binds + [(t, f"isinstance_of g_entry_parent {a.text} {self.classes(n.args[1])}")])
+            if name == "hasattr" and len(n.args) == 2 and not n.keywords and isinstance(n.args[1], ast.Constant) \
+                    and isinstance(n.args[1].value, str):
+                a = self.ex(n.args[0])
+                if a.ty.kind != "entry":
+                    self.err(f"hasattr of {a.ty!r}")
+                at = ATTRS.get(n.args[1].value, ("AOther", None))[0]
+                t = self.tmp()
+                return E(t, T("bool"), a.binds + [(t, f"hasattr_of g_has_attr {a.text} {at}")])
+            if name in ("all", "any") and len(n.args) == 1 and isinstance(n.args[0], ast.GeneratorExp) and not n.keywords:
+                g, ibinds, it, el, conds, saved = self.comp_parts(n.args[0].generators)
+                if conds:
+                    self.err(f"filtered generator in {text}")
+                b = self.pure(n.args[0].elt)
+                self.env = saved
+                if b.ty.kind != "bool":
+                    self.err(f"non-boolean generator in {text}")
+                return E(f"({'forallb' if name == 'all' else 'existsb'} (fun v_{g.target.id} => {b.text}) {it})", T("bool"), ibinds)
+            if name == "sum" and len(n.args) == 1 and isinstance(n.args[0], ast.GeneratorExp) and not n.keywords \
+                    and isinstance(n.args[0].elt, ast.Constant) and n.args[0].elt.value == 1:
+                g, ibinds, it, el, conds, saved = self.comp_parts(n.args[0].generators)
+                self.env = saved
+                src_ = it if not conds else f"(filter (fun v_{g.target.id} => {' && '.join(c.text for c in conds)}) {it})"
+                return E(f"(zlen {src_})", T("int"), ibinds)
+            if name == "sorted":
+                return self.sorted_call(n)
+            if name == "list" and len(n.args) == 1 and not n.keywords and isinstance(n.args[0], (ast.GeneratorExp, ast.ListComp)) \
+                    and len(n.args[0].generators) == 2:
+                return self.shard_source(n.args[0])          # the shards of a group, in group order (unsorted)
+            if name == "defaultdict" and "defaultdict" in self.ok and len(n.args) == 1 and isinstance(n.args[0], ast.Name) \
+                    and n.args[0].id in ("list", "set") and not n.keywords:
+                # defaultdict(set): only sets of ranks (ints) are modelled
+                return E("[]", T("ddict", None if n.args[0].id == "list" else T("int")), fresh=True)
+            if name in ("ShardedTensorEntry", "DTensorEntry") and name in self.ok and not n.args:
+                kw = {k.arg: self.ex(k.value) for k in n.keywords}
+                want = {"ShardedTensorEntry": ["shards"], "DTensorEntry": ["mesh", "dim_map", "shards"]}[name]
+                if sorted(kw) != sorted(want):
+                    self.err(f"unexpected constructor arguments {text}")
+                tys = {"shards": T("list", T("shard")), "mesh": T("mesh"), "dim_map": T("list", T("list", T("int")))}
+                for k in want:
+                    if not same(kw[k].ty, tys[k]):
+                        self.err(f"constructor argument {k} has type {kw[k].ty!r}")
+                t = self.tmp()
+                ctor = "mk_sharded" if name == "ShardedTensorEntry" else "mk_dtensor"
+                return E(t, T("entry"), [b for k in want for b in kw[k].binds] +
+                         [(t, f"new_entry ({ctor} {' '.join(kw[k].text for k in want)})")], fresh=True)
+            if name == "_ReplicatedShards" and name in self.ok and not n.args and len(n.keywords) == 1 \
+                    and n.keywords[0].arg == "replicated_ranks_for_shards":
+                a = self.ex(n.keywords[0].value)
+                if not same(a.ty, T("list", T("list", T("int")))):
+                    self.err(f"unexpected argument type in {text}")
+                return E(a.text, a.ty, a.binds, fresh=True)
+            if name == "_get_replicated_ranks" and name in self.ok:
+                args = n.args + [k.value for k in n.keywords if k.arg == "entry"]
+                if len(args) != 1 or len(n.args) + len(n.keywords) != 1:
+                    self.err(f"unexpected arguments in {text}")
+                a = self.ex(args[0])
+                if a.ty.kind != "entry":
+                    self.err(f"unexpected argument type in {text}")
+                t = self.tmp()
+                return E(t, T("list", T("list", T("int"))), a.binds + [(t, f"get_replicated_ranks_of g_has_attr {a.text}")], fresh=True)
+            if name == "is_sharded_tensor_elasticity_enabled_at_root_only" and name in self.ok and not n.args and not n.keywords:
+                self.uses_knob = True
+                return E("knob_root_only", T("bool"))
+            self.err(f"unknown function {text}")
+        if isinstance(f, ast.Attribute):
+            if isinstance(f.value, ast.Constant) and f.value.value == "/" and f.attr == "join" and len(n.args) == 1 and not n.keywords:
+                a = self.ex(n.args[0])
+                if not same(a.ty, T("list", T("str"))):
+                    self.err(f"join of {a.ty!r}")
+                return E(f"(join {a.text})", T("str"), a.binds)
+            if ast.unparse(f) == "copy.deepcopy" and "copy" in self.ok and len(n.args) == 1 and not n.keywords:
+                a = self.ex(n.args[0])
+                t = self.tmp()
+                if same(a.ty, T("list", T("dict", T("entry")))):
+                    return E(t, a.ty, a.binds + [(t, f"deepcopy_dicts {a.text}")], fresh=True)
+                if same(a.ty, T("dict", T("entry"))):
+                    return E(t, a.ty, a.binds + [(t, f"deepcopy_dict {a.text}")], fresh=True)
+                self.err(f"deepcopy of {a.ty!r}")
+            v = self.ex(f.value)
+            if f.attr == "split" and v.ty.kind == "str" and len(n.args) == 1 and isinstance(n.args[0], ast.Constant) \
+                    and n.args[0].value == "/" and not n.keywords:
+                return E(f"(split {v.text})", T("list", T("str")), v.binds, fresh=True)
+            if f.attr == "copy" and v.ty.kind == "dict" and not n.args and not n.keywords:
+                return E(v.text, v.ty, v.binds, fresh=True)                 # a new dict holding the same entry objects
+            if f.attr == "pop" and same(v.ty, T("list", T("str"))) and isinstance(f.value, ast.Name) and not n.keywords:
+                t = self.tmp()
+                if not n.args:
+                    return E(t, T("str"), v.binds + [(f"'({t}, {v.text})", f"pop_last {v.text}")])
+                if len(n.args) == 1 and isinstance(n.args[0], ast.Constant) and n.args[0].value == 0:
+                    return E(t, T("str"), v.binds + [(f"'({t}, {v.text})", f"pop_first {v.text}")])
+            if f.attr == "get_all_replicated_ranks" and same(v.ty, T("list", T("list", T("int")))) and len(n.args) == 1 and not n.keywords:
+                a = self.ex(n.args[0])
+                if a.ty.kind != "int":
+                    self.err(f"unexpected argument in {text}")
+                return E(f"(rs_lookup {v.text} {a.text})", T("list", T("int")), v.binds + a.binds)
+            self.err(f"unsupported method call {text} on {v.ty!r}")
+        self.err(f"unsupported call {text}")
+
+    def sorted_call(self, n) -> E:
+        text = ast.unparse(n)
+        if len(n.args) != 1:
+            self.err(f"unsupported sorted() {text}")
+        src_ = self.shard_source(n.args[0])
+        if not n.keywords:
+            self.err(f"sorted() of Shard objects without a key (Shard defines no ordering): {text}")
+        if len(n.keywords) != 1 or n.keywords[0].arg != "key":
+            self.err(f"unsupported sorted() {text}")
+        k = n.keywords[0].value
+        if not (isinstance(k, ast.Lambda) and len(k.args.args) == 1 and isinstance(k.body, ast.Attribute)
+                and isinstance(k.body.value, ast.Name) and k.body.value.id == k.args.args[0].arg and k.body.attr == "offsets"):
+            self.err(f"unsupported sort key {ast.unparse(k)}")
+        return E(f"(sort_shards {src_.text})", T("list", T("shard")), src_.binds, fresh=True)
+
+    def shard_source(self, g) -> E:
+        """(shard for entry in group for shard in entry.shards), possibly inside list(..)"""
+        if isinstance(g, ast.Call) and isinstance(g.func, ast.Name) and g.func.id == "list" and len(g.args) == 1 and not g.keywords:
+            g = g.args[0]
+        if not (isinstance(g, (ast.GeneratorExp, ast.ListComp)) and len(g.generators) == 2
+                and all(not x.ifs and not x.is_async and isinstance(x.target, ast.Name) for x in g.generators)
+                and isinstance(g.elt, ast.Name) and g.elt.id == g.generators[1].target.id):
+            self.err(f"unsupported shard source {ast.unparse(g)}")
+        g1, g2 = g.generators
+        binds, it, el = self.iter_expr(g1.iter)
+        if el is None or el.kind != "entry":
+            self.err(f"unsupported shard source {ast.unparse(g)}")
+        saved = dict(self.env)
+        self.env[g1.target.id] = el
+        m, ty = self.mon(g2.iter)
+        self.env = saved
+        if not same(ty, T("list", T("shard"))):
+            self.err(f"unsupported shard source {ast.unparse(g)}: inner iterable has type {ty!r}")
+        t = self.tmp()
+        return E(t, T("list", T("shard")), binds + [(t, f"concat_mapM (fun v_{g1.target.id} => {m}) {it}")], fresh=True)
+
+    def call_fn(self, n, sig):
+        """call of a translated function: (E for its Python result, [(param, arg variable)] for the mutated parameters)"""
+        args = self.call_args(n, sig)
+        es = []
+        for pname, pty in sig.params:
+            e = self.ex(args[pname])
+            if not same(e.ty, pty):
+                self.err(f"argument {pname} of {sig.name} has type {e.ty!r}, expected {pty!r}")
+            unify(e.ty, pty, self.where)
+            es.append(e)
+        if sig.knob:
+            self.uses_knob = True
+        head = sig.gname + (" knob_root_only" if sig.knob else "")
+        m = head + "".join(" " + e.text for e in es)
+        binds = [b for e in es for b in e.binds]
+        muts = []
+        for pname in sig.mutated:
+            a = args[pname]
+            if not isinstance(a, ast.Name):
+                self.err(f"{sig.name} mutates its parameter {pname}; the argument must be a plain variable: {ast.unparse(n)}")
+            muts.append("v_" + a.id)
+        t = self.tmp()
+        parts = ([t] if sig.ret.kind != "unit" else []) + muts
+        _, pat = tup(parts)
+        binds.append((pat, m))
+        return E(t if sig.ret.kind != "unit" else "tt", sig.ret, binds, fresh=True), muts
+
+    # ------------------------------------------------------------------ statements
+    def check_alias(self, value_node, e: E, what):
+        """a dict / list of dicts is a mutable object: binding a second name to it would need aliasing in the model"""
+        def mutable(t):
+            return t is not None and (t.kind in ("dict", "ddict") or (t.kind == "list" and mutable(t.a[0])))
+        if mutable(e.ty) and not e.fresh:
+            self.err(f"{what}: a second reference to a mutable container ({ast.unparse(value_node)}); only .copy(), "
+                     f"copy.deepcopy() and freshly built values are modelled")
+
+    def block(self, stmts, ctx: Ctx) -> str:
+        if not stmts:
+            return ctx.fall()
+        st, rest = stmts[0], stmts[1:]
+        if isinstance(st, ast.Pass):
+            return self.block(rest, ctx)
+        if isinstance(st, ast.Return):
+            if ctx.ret is None:
+                self.err("return inside a loop is not supported")
+            return ctx.ret(st.value)
+        if isinstance(st, ast.Continue):
+            if ctx.cont is None:
+                self.err("continue outside a loop")
+            return ctx.cont()
+        if isinstance(st, ast.Break):
+            if ctx.brk is None:
+                self.err("break outside a loop")
+            return ctx.brk()
+        if isinstance(st, (ast.Assign, ast.AnnAssign)):
+            return self.assign(st, rest, ctx)
+        if isinstance(st, ast.Delete):
+            if len(st.targets) != 1 or not (isinstance(st.targets[0], ast.Subscript) and isinstance(st.targets[0].value, ast.Name)):
+                self.err(f"unsupported statement {ast.unparse(st)}")
+            d = self.ex(st.targets[0].value)
+            k = self.ex(st.targets[0].slice)
+            if d.ty.kind != "dict" or k.ty.kind != "str":
+                self.err(f"unsupported del {ast.unparse(st)}")
+            return wrap(k.binds + [(d.text, f"ddel_m {d.text} {k.text}")], self.block(rest, ctx))
+        if isinstance(st, ast.Expr) and isinstance(st.value, ast.Call):
+            return self.expr_stmt(st.value, rest, ctx)
+        if isinstance(st, ast.If):
+            return self.if_stmt(st, rest, ctx)
+        if isinstance(st, ast.For):
+            return self.for_stmt(st, rest, ctx)
+        self.err(f"unsupported statement {ast.unparse(st)[:80]}")
+
+    def assign(self, st, rest, ctx):
+        if isinstance(st, ast.AnnAssign):
+            if st.value is None:
+                self.err(f"unsupported statement {ast.unparse(st)}")
+            target, value, declared = st.target, st.value, self.ann(st.annotation)
+        else:
+            if len(st.targets) != 1:
+                self.err(f"unsupported statement {ast.unparse(st)}")
+            target, value, declared = st.targets[0], st.value, None
+        if isinstance(target, ast.Name):
+            if isinstance(value, ast.ListComp) and isinstance(value.elt, ast.Dict) and not value.elt.keys \
+                    and len(value.generators) == 1 and not value.generators[0].ifs:
+                # [{} for _ in range(n)]
+                it, _ = self.iter_expr(value.generators[0].iter, pure=True)
+                e = E(f"(map (fun _ => []) {it})", T("list", T("dict", None)), fresh=True)
+            else:
+                e = self.ex(value)
+            self.check_alias(value, e, ast.unparse(st))
+            ty = e.ty
+            if declared is not None:
+                if not same(ty, declared):
+                    self.err(f"{ast.unparse(st)}: value of type {ty!r} for a variable declared {declared!r}")
+                ty = unify(ty, declared, self.where)
+            self.env[target.id] = ty
+            annot = ""
+            if e.text == "[]" or e.text.startswith("(map (fun _ => [])"):
+                annot = f" : {ty.coq()}" if "_" not in ty.coq() else ""
+            if annot == "" and (e.text == "[]"):
+                # the element type becomes known at the first use; emit the let after translating the rest
+                v = "v_" + target.id
+                inner = self.block(rest, ctx)
+                return wrap(e.binds, f"let {v} : {self.env[target.id].coq()} := {e.text} in\n{inner}")
+            return wrap(e.binds, f"let v_{target.id}{annot} := {e.text} in\n{self.block(rest, ctx)}")
+        if isinstance(target, ast.Subscript):
+            v = self.ex(value)
+            k = self.ex(target.slice)
+            if isinstance(target.value, ast.Name):
+                d = self.ex(target.value)
+                if d.ty.kind == "dict" and k.ty.kind == "str":
+                    d.ty.a[0] = unify(d.ty.a[0], v.ty, self.where)
+                    self.check_alias(value, v, ast.unparse(st))
+                    return wrap(k.binds + v.binds, f"let {d.text} := dset {d.text} {k.text} {v.text} in\n{self.block(rest, ctx)}")
+            elif isinstance(target.value, ast.Subscript) and isinstance(target.value.value, ast.Name):
+                l = self.ex(target.value.value)
+                i = self.ex(target.value.slice)
+                if same(l.ty, T("list", T("dict", None))) and i.ty.kind == "int" and k.ty.kind == "str":
+                    l.ty.a[0].a[0] = unify(l.ty.a[0].a[0], v.ty, self.where)
+                    t = self.tmp()
+                    binds = i.binds + k.binds + v.binds + [(t, f"list_get {l.text} {i.text}"),
+                                                           (l.text, f"list_set {l.text} {i.text} (dset {t} {k.text} {v.text})")]
+                    return wrap(binds, self.block(rest, ctx))
+        self.err(f"unsupported assignment {ast.unparse(st)}")
+
+    def expr_stmt(self, c, rest, ctx):
+        text = ast.unparse(c)
+        f = c.func
+        if isinstance(f, ast.Name) and f.id in self.fns:
+            e, _ = self.call_fn(c, self.fns[f.id])
+            return wrap(e.binds, self.block(rest, ctx))
+        if isinstance(f, ast.Attribute) and len(c.args) == 1 and not c.keywords:
+            # entry.keys.append(k) / entry.keys.remove(k): heap writes
+            if isinstance(f.value, ast.Attribute) and f.value.attr == "keys" and f.attr in ("append", "remove"):
+                o = self.ex(f.value.value)
+                if o.ty.kind == "entry":
+                    a = self.ex(c.args[0])
+                    op = "keys_append" if f.attr == "append" else "keys_remove"
+                    return wrap(o.binds + a.binds + [("_", f"{op} g_has_attr {o.text} {self.as_key(a)}")], self.block(rest, ctx))
+            # dd[k].append(v) / dd[k].update(s)
+            if isinstance(f.value, ast.Subscript) and isinstance(f.value.value, ast.Name) and f.attr in ("append", "update"):
+                d = self.ex(f.value.value)
+                k = self.ex(f.value.slice)
+                a = self.ex(c.args[0])
+                if d.ty.kind == "ddict" and k.ty.kind == "str":
+                    if f.attr == "append":
+                        d.ty.a[0] = unify(d.ty.a[0], a.ty, self.where)
+                        return wrap(k.binds + a.binds, f"let {d.text} := dd_append {d.text} {k.text} {a.text} in\n{self.block(rest, ctx)}")
+                    if same(a.ty, T("list", T("int"))):
+                        d.ty.a[0] = unify(d.ty.a[0], T("int"), self.where)
+                        return wrap(k.binds + a.binds, f"let {d.text} := dd_update {d.text} {k.text} {a.text} in\n{self.block(rest, ctx)}")
+            # d.update(other)
+            if isinstance(f.value, ast.Name) and f.attr == "update":
+                d = self.ex(f.value)
+                a = self.ex(c.args[0])
+                if d.ty.kind == "dict" and same(d.ty, a.ty):
+                    unify(d.ty, a.ty, self.where)
+                    return wrap(a.binds, f"let {d.text} := dupdate {d.text} {a.text} in\n{self.block(rest, ctx)}")
+        self.err(f"unsupported statement {text}")
+
+    def if_stmt(self, st, rest, ctx):
+        c = self.ex(st.test)
+        if c.ty.kind != "bool":
+            self.err(f"non-boolean condition {ast.unparse(st.test)}")
+        saved = dict(self.env)
+        if not self.has_exit(st.body) and not self.has_exit(st.orelse):
+            live = self.used(rest) | ctx.live
+            merged = sorted(v for v in self.assigned([st]) if v in saved and v in live)
+            text, pat = tup(["v_" + v for v in merged])
+            inner = Ctx(lambda: f"ret {text}", set(merged) | ctx.live)
+            a = self.block(st.body, inner)
+            self.env = dict(saved)
+            b = self.block(st.orelse, inner)
+            self.env = dict(saved)
+            return wrap(c.binds, f"bind (if {c.text} then {a} else {b}) (fun {pat} =>\n{self.block(rest, ctx)})")
+        a = self.block(st.body + rest, ctx)
+        self.env = dict(saved)
+        b = self.block(st.orelse + rest, ctx)
+        self.env = dict(saved)
+        return wrap(c.binds, f"if {c.text} then {a}\nelse {b}")
+
+    def for_stmt(self, st, rest, ctx):
+        if st.orelse:
+            self.err("for ... else is not supported")
+        binds, it, el = self.iter_expr(st.iter)
+        if el is None:
+            self.err(f"cannot type the elements of {ast.unparse(st.iter)}")
+        self.check_iteration(st)
+        state = sorted(v for v in self.assigned(st.body) if v in self.env)
+        text, pat = tup(["v_" + v for v in state])
+        saved = dict(self.env)
+        if isinstance(st.target, ast.Name):
+            self.env[st.target.id] = el
+            tpat = "v_" + st.target.id
+        elif isinstance(st.target, ast.Tuple) and all(isinstance(x, ast.Name) for x in st.target.elts) and el.kind == "tuple" \
+                and len(el.a) == len(st.target.elts):
+            for x, t in zip(st.target.elts, el.a):
+                self.env[x.id] = t
+            tpat = "'(" + ", ".join("v_" + x.id for x in st.target.elts) + ")"
+        else:
+            self.err(f"unsupported loop target {ast.unparse(st.target)}")
+        loop_ctx = Ctx(lambda: f"ret (LNext {text})", set(state), ret=None, cont=lambda: f"ret (LNext {text})",
+                       brk=lambda: f"ret (LBreak {text})")
+        body = self.block(st.body, loop_ctx)
+        for k in list(self.env):
+            if k not in saved:
+                del self.env[k]
+        return wrap(binds, f"bind (for_each {it} (fun {tpat} {pat} =>\n{body}) {text}) (fun {pat} =>\n{self.block(rest, ctx)})")
+
+    def check_iteration(self, st):
+        """what the body may do to the object it iterates over"""
+        it = st.iter
+        src_name = None
+        if isinstance(it, ast.Name):
+            src_name = it.id
+        elif isinstance(it, ast.Call) and isinstance(it.func, ast.Attribute) and it.func.attr in ("items", "keys", "values") \
+                and isinstance(it.func.value, ast.Name):
+            src_name = it.func.value.id
+        if src_name is not None and src_name in self.assigned(st.body):
+            first = st.target.elts[0] if isinstance(st.target, ast.Tuple) else st.target
+            for n in [x for b in st.body for x in ast.walk(b)]:
+                ok = True
+                if isinstance(n, (ast.Delete, ast.AugAssign)):
+                    ok = not any(self.base_name(t) == src_name for t in (n.targets if isinstance(n, ast.Delete) else [n.target]))
+                elif isinstance(n, ast.Assign):
+                    for t in n.targets:
+                        if isinstance(t, ast.Name) and t.id == src_name:
+                            ok = False
+                        if isinstance(t, ast.Subscript) and self.base_name(t) == src_name:
+                            ok = ok and isinstance(t.value, ast.Name) and isinstance(t.slice, ast.Name) \
+                                and isinstance(first, ast.Name) and t.slice.id == first.id
+                elif isinstance(n, ast.Call) and isinstance(n.func, ast.Attribute) and n.func.attr in MUTATORS \
+                        and self.base_name(n.func.value) == src_name:
+                    ok = False
+                elif isinstance(n, ast.Call) and isinstance(n.func, ast.Name) and n.func.id in self.fns and self.fns[n.func.id].mutated:
+                    ok = not any(isinstance(a, ast.Name) and a.id == src_name for a in list(n.args) + [k.value for k in n.keywords])
+                if not ok:
+                    self.err(f"the loop over {ast.unparse(it)} changes the keys of the dict it iterates over: {ast.unparse(n)[:80]}")
+        if isinstance(it, ast.Attribute):
+            # for k in entry.keys: a write to the same list must be followed by break at once
+            def scan(body):
+                for i, s in enumerate(body):
+                    if isinstance(s, ast.Expr) and isinstance(s.value, ast.Call) and isinstance(s.value.func, ast.Attribute) \
+                            and ast.unparse(s.value.func.value) == ast.unparse(it) and s.value.func.attr in MUTATORS:
+                        if not (i + 1 < len(body) and isinstance(body[i + 1], ast.Break)):
+                            self.err(f"{ast.unparse(s)} inside the loop over {ast.unparse(it)} is not followed by break")
+                    for sub in ("body", "orelse"):
+                        if isinstance(getattr(s, sub, None), list):
+                            scan(getattr(s, sub))
+            scan(st.body)
+
+    # ------------------------------------------------------------------ one function
+    def function(self, fn: ast.FunctionDef) -> str:
+        self.where = fn.name
+        self.n = 0
+        self.uses_knob = False
+        if fn.decorator_list or fn.args.vararg or fn.args.kwarg or fn.args.kwonlyargs or fn.args.defaults or fn.args.posonlyargs:
+            self.err("unsupported signature (decorator / default / *args)")
+        params = [(a.arg, self.ann(a.annotation)) for a in fn.args.args]
+        ret = self.ann(fn.returns)
+        sig = FnSig(fn.name, "g_" + fn.name.lstrip("_"), params, ret)
+        self.env = {p: t for p, t in params}
+        inplace = self.assigned(fn.body, inplace_only=True)
+        sig.mutated = [p for p, t in params if p in inplace and t.kind in ("dict", "ddict", "list")]
+        rty = sig.result_ty()
+
+        def result(value_node):
+            binds, parts = [], []
+            if ret.kind != "unit":
+                if value_node is None:
+                    self.err("return without a value in a function that returns one")
+                e = self.ex(value_node)
+                if not same(e.ty, ret):
+                    self.err(f"return value of type {e.ty!r}, declared {ret!r}")
+                binds, parts = e.binds, [e.text]
+                if e.binds and e.binds[-1][0] == e.text and not sig.mutated:
+                    return wrap(e.binds[:-1], e.binds[-1][1])
+            elif value_node is not None and not (isinstance(value_node, ast.Constant) and value_node.value is None):
+                self.err("return with a value in a function declared -> None")
+            text, _ = tup(parts + ["v_" + m for m in sig.mutated])
+            return wrap(binds, f"ret {text}")
+        ctx = Ctx(lambda: result(None), set(sig.mutated), ret=result)
+        body = self.block(fn.body, ctx)
+        sig.knob = self.uses_knob
+        self.fns[fn.name] = sig
+        ps = "".join(f" (v_{p} : {t.coq()})" for p, t in params)
+        knob = " (knob_root_only : bool)" if sig.knob else ""
+        muts = f"   returns the final value of: {', '.join(sig.mutated)}" if sig.mutated else ""
+        return (f"(* {fn.name}{muts} *)\nDefinition {sig.gname}{knob}{ps} : M ({rty.coq()}) :=\n{body}.\n")
+
+
+def _imports_ok(mod: ast.Module, wanted: dict) -> set:
+    """names whose meaning the translation relies on, checked against the module's import statements"""
+    got = {}
+    for n in mod.body:
+        if isinstance(n, ast.ImportFrom):
+            for a in n.names:
+                got[a.asname or a.name] = ((n.module or "").split(".")[-1], a.name)
+        elif isinstance(n, ast.Import):
+            for a in n.names:
+                got[a.asname or a.name] = (a.name, None)
+    ok = set()
+    for name, origin in wanted.items():
+        if name in got and got[name] == origin:
+            ok.add(name)
+    # a local definition shadowing an imported name changes its meaning
+    for n in ast.walk(mod):
+        if isinstance(n, (ast.FunctionDef, ast.ClassDef)) and n.name in ok:
+            ok.discard(n.name)
+    return ok
+
+
+def _attr_table() -> str:
+    """hasattr / attribute reads: the attributes each entry class's __init__ sets (manifest.py)"""
+    mod = parse("torchsnapshot/manifest.py")
+    arms = []
+    for n in mod.body:
+        if not (isinstance(n, ast.ClassDef) and n.name in ECLASS and n.name != "Entry"):
+            continue
+        if [ast.unparse(b) for b in n.bases] != ["Entry"]:
+            raise TranslateError("manifest.py", f"{n.name} does not derive from Entry directly: inherited attributes are not modelled")
+        inits = [f for f in n.body if isinstance(f, ast.FunctionDef) and f.name == "__init__"]
+        if len(inits) != 1:
+            raise TranslateError("manifest.py", f"{n.name} has no __init__ of its own")
+        attrs = set()
+        for s in ast.walk(inits[0]):
+            if isinstance(s, (ast.Assign, ast.AnnAssign)):
+                for t in (s.targets if isinstance(s, ast.Assign) else [s.target]):
+                    if isinstance(t, ast.Attribute) and isinstance(t.value, ast.Name) and t.value.id == "self":
+                        attrs.add(t.attr)
+        # properties / class attributes with the same names would also satisfy hasattr
+        for f in n.body:
+            name = f.name if isinstance(f, ast.FunctionDef) else (f.target.id if isinstance(f, ast.AnnAssign) and isinstance(f.target, ast.Name) and f.value is not None else None)
+            if name in ATTRS and name not in attrs:
+                raise TranslateError("manifest.py", f"{n.name}.{name} is defined outside __init__")
+        for a in sorted(attrs):
+            if a in ATTRS:
+                arms.append(f"  | Dispatch.{ECLASS[n.name]}, {ATTRS[a][0]} => true")
+    return ("(* manifest.py: the attributes (of those the translated code reads) that each entry class's __init__ sets *)\n"
+            "Definition g_has_attr (c : eclass) (a : attr) : bool :=\n  match c, a with\n" + "\n".join(arms) +
+            "\n  | _, _ => false\n  end.\n")
+
+
+def _check_pinned():
+    mu = parse("torchsnapshot/manifest_utils.py")
+    got = ast.unparse(find_func(mu, "_get_replicated_ranks"))
+    if got != PINNED_GET_REPLICATED_RANKS:
+        raise TranslateError("_get_replicated_ranks", "the source differs from the text the hand model ManifestPy.np_replicated_ranks "
+                             "was written for")
+    du = parse("torchsnapshot/dtensor_utils.py")
+    got = ast.unparse([n for n in du.body if isinstance(n, ast.ClassDef) and n.name == "_ReplicatedShards"][0])
+    if got != PINNED_REPLICATED_SHARDS:
+        raise TranslateError("_ReplicatedShards", "the source differs from the text the hand model ManifestPy.rs_lookup was written for")
+
+
+UTILS_FUNCS = ["is_dict_entry", "is_container_entry", "is_fully_replicated_entry", "is_partially_replicated_entry",
+               "is_replicated_entry", "is_sharded_entry"]
+OPS_FUNCS = ["_remove_entry", "_get_rank_to_manifest", "_get_merged_sharded_tensor_entries", "_get_merged_dtensor_entries",
+             "_get_manifest_for_existing_rank", "_get_manifest_for_new_rank", "get_manifest_for_rank",
+             "handle_sharded_tensor_elasticity"]
+
+
+def _functions() -> str:
+    _check_pinned()
+    fns: dict[str, FnSig] = {}
+    out = []
+    mu = parse("torchsnapshot/manifest_utils.py")
+    ok = _imports_ok(mu, {c: ("manifest", c) for c in ECLASS})
+    tr = Tr(fns, ok)
+    defined = {n.name for n in mu.body if isinstance(n, ast.FunctionDef)}
+    if defined != set(UTILS_FUNCS) | {"_get_replicated_ranks"}:
+        raise TranslateError("manifest_utils", f"the set of functions changed: {sorted(defined)}")
+    for name in UTILS_FUNCS:
+        out.append(tr.function(find_func(mu, name)))
+    mo = parse("torchsnapshot/manifest_ops.py")
+    wanted = {c: ("manifest", c) for c in ECLASS}
+    wanted.update({"unquote": ("parse", "unquote"), "defaultdict": ("collections", "defaultdict"), "copy": ("copy", None),
+                   "_ReplicatedShards": ("dtensor_utils", "_ReplicatedShards"),
+                   "_get_replicated_ranks": ("manifest_utils", "_get_replicated_ranks"),
+                   "is_sharded_tensor_elasticity_enabled_at_root_only": ("knobs", "is_sharded_tensor_elasticity_enabled_at_root_only")})
+    ok = _imports_ok(mo, wanted)
+    # the predicates manifest_ops uses must be the translated ones
+    imported = {}
+    for n in mo.body:
+        if isinstance(n, ast.ImportFrom):
+            for a in n.names:
+                imported[a.asname or a.name] = ((n.module or "").split(".")[-1], a.name)
+    for name in UTILS_FUNCS:
+        if name in imported and imported[name] != ("manifest_utils", name):
+            raise TranslateError("manifest_ops", f"{name} is not manifest_utils.{name}")
+    defined = {n.name for n in mo.body if isinstance(n, ast.FunctionDef)}
+    if defined != set(OPS_FUNCS):
+        raise TranslateError("manifest_ops", f"the set of functions changed: {sorted(defined)}")
+    visible = {k: v for k, v in fns.items() if k in imported}
+    tr = Tr(visible, ok)
+    for name in OPS_FUNCS:
+        out.append(tr.function(find_func(mo, name)))
+    return "\n".join(out)
+
+
 def generate() -> dict:
     mod = parse("torchsnapshot/manifest_ops.py")
     imported = any(isinstance(n, ast.ImportFrom) and n.module == "urllib.parse"
@@ -183,10 +1265,14 @@ def generate() -> dict:
     uses_unquote = any(isinstance(n, ast.Name) and n.id == "unquote" for n in ast.walk(mod))
     if uses_unquote and not imported:
         raise TranslateError("manifest_ops", "unquote is not urllib.parse.unquote")
-    text = ("(* generated by translator/gen_manifest_ops.py from torchsnapshot/manifest_ops.py on every run - do not edit *)\n"
-            "From TS Require Import model.Base model.Flatten.\n\n"
+    text = ("(* generated by translator/gen_manifest_ops.py from torchsnapshot/manifest_ops.py, manifest_utils.py and manifest.py "
+            "on every run - do not edit *)\n"
+            "From TS Require Import model.Base model.Flatten model.ManifestOps model.Dispatch model.ManifestPy gen.DispatchGen.\n\n"
+            "(* ---- decision fragments (kept from the first version of this translator) ---- *)\n"
             + _branch(find_func(mod, "get_manifest_for_rank")) + "\n"
             + _keep(find_func(mod, "_get_manifest_for_new_rank")) + "\n"
             + _elastic_key(find_func(mod, "handle_sharded_tensor_elasticity")) + "\n"
-            + _removed_key(find_func(mod, "_remove_entry")))
+            + _removed_key(find_func(mod, "_remove_entry")) + "\n"
+            "(* ---- the functions, statement by statement (vocabulary: model/ManifestPy.v) ---- *)\n"
+            + _attr_table() + "\n" + _functions())
     return {"ManifestOpsGen": text}
